@@ -93,7 +93,7 @@ fn content_for(v: &SetupV, k: &ContentK) -> Content {
         ContentK::Both => balanced(v, ht, vec![h(20_000, 2, 60)], vec![h(25_000, 1, 50)], 1000),
         ContentK::EdgeAbove => balanced(v, ht, vec![], vec![h(edge_above, 1, 50)], 1000),
         ContentK::EdgeBelow => balanced(v, ht, vec![], vec![h(edge_below, 1, 50)], 1000),
-        ContentK::Three => balanced(v, ht, vec![h(20_000, 2, 60), h(20_000, 2, 61)], vec![h(30_000, 1, 55)], 2000),
+        ContentK::Three => balanced(v, ht, vec![h(20_000, 2, 60), h(21_000, 3, 61)], vec![h(30_000, 1, 55)], 2000),
     }
 }
 
